@@ -7,7 +7,7 @@ Line-protocol handler for property C11.
 
 * `A` ARGV[1..n] (ARGV[0] is implicit, ARGC = n+1), `S` the records of stdin, `F` the files, `V` the program's global scalar names
 * ops: `e <tag>` | `n` | `nf` | `x <n>` | `x -` | `g` | `gv <v>` | `gf <file>` | `gvf <v> <file>` | `c <ops> ;` | `l <n> <ops> ;` |
-  `i <cond> <ops> ;` | `sa <i> <hex>` | `sc <n>` | `cl <file>`
+  `i <cond> <ops> ;` | `sa <i> <hex>` | `sc <n>` | `cl <file>` | `sf <hex>` (FILENAME = …) | `sfs <hex>` (FS = …)
 * pat: `a` | `p <pcond>` | `r <pcond> <pcond>`;  body: `0` (no action) | `1 <ops> ;`
 * pcond: `<cond>` | `q n <when> <cond>` | `q nf <when> <cond>` (a function that executes next / nextfile when `when` holds, else returns `cond`)
 * cond: `t` | `f` | `h <byte>` | `nr <n>` | `fnr <n>` | `nrge <n>` | `nrmod <n> <k>` | `not <cond>` | `veq <v> <hex>` | `and <cond> <cond>`
@@ -132,6 +132,12 @@ def pOps : Nat → Toks → Option (List Op × Toks)
     | "cl" :: r => do
       let (f, r) ← pHex r
       one (.close f) r
+    | "sf" :: r => do
+      let (v, r) ← pHex r
+      one (.setFilename v) r
+    | "sfs" :: r => do
+      let (v, r) ← pHex r
+      one (.setFs v) r
     | _ => none
 
 /-- a pattern expression: a plain condition, or `q n|nf <when> <cond>` = a call of
